@@ -2,7 +2,7 @@ import CssVerif.Lemmas.Tok
 import CssVerif.Lemmas.TokLex
 import CssVerif.Lemmas.TokDet
 import CssVerif.Lemmas.TokAppend
-import CssVerif.Lemmas.TokLex2
+import CssVerif.Lemmas.TokLex2Sep
 import CssVerif.Lemmas.TokFull
 import CssVerif.Lemmas.TokLex2Full
 import CssVerif.Lemmas.TokPush
@@ -357,12 +357,12 @@ example : expected [Lex.pct 53 [48], .dim 49 [] 112 [120], .hash 102 [48, 48]] =
 `Lex2` (Lemmas/TokLex2.lean) adds to `Lex`: STRING (quote `"` or `'`, a body without backslash, line break or the
 delimiter — the other quote may occur —, the same quote), FUNCTION (plain identifier other than `and` in any letter
 case, `(`), URI (`url(` in any letter case, an unquoted body of printable ASCII other than quotes, `)`, backslash and
-white space, `)`), UNICODE-RANGE (`U+`/`u+`, one to six hex digits or `?`), COMMENT (`/*`, a body without `*`, `*/`)
-and CDC. `render2` joins the lexemes with single spaces; `expectedAll` lists (type, value) with an S token between
+white space, `)`), UNICODE-RANGE (`U+`/`u+`, one to six hex digits or `?`), COMMENT (`/*`, any body in which no `*/` ends,
+`*/`) and CDC. `render2` joins the lexemes with single spaces; `expectedAll` lists (type, value) with an S token between
 neighbours; a COMMENT token is not yielded when comments are off. S (any run of white space) and INVALID (which a
 space does not end) have class theorems of their own.
 Still on the classification oracle only: lexemes with escapes, non-ASCII code points, signed / fractional numbers,
-identifiers that start with `-`, `u`, `U`, quoted URLs, comment bodies that contain `*`, UNICODE-RANGE intervals. -/
+identifiers that start with `-`, `u`, `U`, quoted URLs, UNICODE-RANGE intervals. -/
 
 /-- **T5.6 for all token classes** (plain lexemes): a text produced from grammar tokens of the classes NUMBER,
 PERCENTAGE, DIMENSION, HASH, IDENT, ATKEYWORD incl. the reserved at-rules, the match operators, CDO, CDC, the
@@ -395,12 +395,29 @@ theorem s_class (doC : Bool) (c : Nat) (cs next : Cps) (hc : isWsC c = true) (hc
 theorem cdc_class (doC : Bool) (rest : Cps) : scan false doC ([45, 45, 62] ++ rest) productions = .hit "CDC" 3 :=
   scan_cdc doC rest
 
-/-- COMMENT with a body without `*`, whatever follows -/
-theorem comment_class_partial (doC : Bool) (body rest : Cps) (hb : ∀ x ∈ body, x ≠ 42) :
+/-- **the COMMENT production is exactly a one-pass scanner, for every text**: `/\*[^*]*\*+([^/*][^*]*\*+)*/` matches at
+the start of `s` iff `s` starts with `/*` and a `*/` follows, and then the match ends with the FIRST such `*/`
+(`commentLen`, `firstClose`: defined without regular expressions). -/
+theorem comment_is_scanner (s : Cps) : reCOMMENT.first s = commentLen s := comment_first s
+
+/-- … and it is deterministic: the successes of the production's tail after `/*` (all positions a backtracking matcher
+can reach) are at most one -/
+theorem comment_deterministic (u : Cps) : cR.ms u = (cScan false u).toList := (comment_scan u).1
+
+theorem firstClose_nil : firstClose [] = none := rfl
+theorem firstClose_step (c : Nat) (t : Cps) :
+    firstClose (c :: t) = if c = 42 ∧ t.head? = some 47 then some 0 else (firstClose t).map (1 + ·) :=
+  firstClose_cons c t
+
+/-- **COMMENT class**: `/*`, a body in which no `*/` ends (the body followed by `*` contains no `*/`), then `*/` is
+scanned as one COMMENT token, whatever follows -/
+theorem comment_class (doC : Bool) (body rest : Cps) (hb : firstClose (body ++ [42]) = none) :
     scan false doC (47 :: 42 :: body ++ 42 :: 47 :: rest) productions = .hit "COMMENT" (body.length + 4) :=
-  scan_comment_plain doC body rest hb
-/- Full statement: the same for every body that does not contain `*/` (and does not end with `*` … the closing
-   delimiter is the first `*/` after the opening one). Missing: the induction over the `([^/*][^*]*\*+)*` group. -/
+  scan_comment_general doC body rest hb
+
+/-- the hypothesis holds for bodies without `*`, for `**`, for `/* /`; it fails for `*/x` -/
+example : firstClose ([97, 32] ++ [42]) = none ∧ firstClose ([42, 42] ++ [42]) = none ∧
+    firstClose ([47, 42, 32, 47] ++ [42]) = none ∧ firstClose ([42, 47, 120] ++ [42]) = some 0 := by decide
 
 /-- STRING with a body without backslash, whatever follows -/
 theorem string_class_partial (doC : Bool) (q : Nat) (hq : q = 34 ∨ q = 39) (body rest : Cps)
